@@ -29,13 +29,99 @@ from contracts.task import make_task
 from contracts.task_constraint import assume_valid_task
 from contracts.resource import decode
 
-KEY = "processscheduler.solver.SchedulingSolver._solve_optimize_incremental#0"
-LOOP = loopcut.LoopSpec(
-    state=["num_iter", "solution", "total_time", "current_variable_value", "three_last_times"],
-    temps=["incremental_solver_is_computing_a_better_value", "is_sat", "sat_computation_time", "sol", "fn", "a", "b", "c", "expected_next_time"],
-)
-# after the repair of C13 the function also counts its pushes
-LOOP_WITH_COUNTER = loopcut.LoopSpec(state=LOOP.state + ["number_of_pushes"], temps=LOOP.temps)
+ROLES = ["num_iter", "solution", "total_time", "current_variable_value", "three_last_times", "number_of_pushes"]
+LABEL = "solver.SchedulingSolver._solve_optimize_incremental"  # the label of the obligations (stable across renamings)
+
+
+def infer_loop():
+    """locate the incremental optimiser and the roles of its loop-carried locals *by what the code does with
+    them*, not by their names (a renaming of the private method, of its parameters or of its locals is a
+    harmless change): the method of SchedulingSolver whose `while` loop pushes a scope; its parameters by
+    position (self, variable, max_iter, kind); and
+        solution                  <- assigned from a call of .model()
+        current_variable_value    <- assigned from a call of .as_long()
+        num_iter                  <- compared with the max_iter parameter
+        total_time                <- augmented in the loop and compared with .max_time
+        three_last_times          <- receives .append(..) and .pop(0) in the loop
+        number_of_pushes          <- the argument of the .pop(..) of the solver after the loop
+    returns dict(method, params, names (role -> local name), key, spec) or None when the shape is not recognised"""
+    import ast
+    import os
+    from psvc import loader
+
+    path = os.path.join(loader.REPO, "processscheduler", "solver.py")
+    try:
+        tree = ast.parse(open(path).read())
+    except (OSError, SyntaxError):
+        return None
+    cls = next((n for n in tree.body if isinstance(n, ast.ClassDef) and n.name == "SchedulingSolver"), None)
+    if cls is None:
+        return None
+
+    def calls_attr(node, attr):
+        return [c for c in ast.walk(node) if isinstance(c, ast.Call) and isinstance(c.func, ast.Attribute) and c.func.attr == attr]
+
+    for fn in [n for n in cls.body if isinstance(n, ast.FunctionDef)]:
+        loops = loopcut._loops_of(fn)
+        cand = [(k, l) for k, l in enumerate(loops) if isinstance(l, ast.While) and calls_attr(l, "push")]
+        if not cand:
+            continue
+        k, loop = cand[0]
+        params = [a.arg for a in fn.args.args]
+        if len(params) < 4:
+            continue
+        names = {}
+        for n in ast.walk(fn):
+            if isinstance(n, ast.Assign) and len(n.targets) == 1 and isinstance(n.targets[0], ast.Name) and isinstance(n.value, ast.Call) and isinstance(n.value.func, ast.Attribute):
+                if n.value.func.attr == "model":
+                    names["solution"] = n.targets[0].id
+                elif n.value.func.attr == "as_long":
+                    names["current_variable_value"] = n.targets[0].id
+        aug = {n.target.id for n in ast.walk(loop) if isinstance(n, ast.AugAssign) and isinstance(n.target, ast.Name)}
+        for n in ast.walk(loop):
+            if isinstance(n, ast.Compare) and isinstance(n.left, ast.Name) and len(n.comparators) == 1:
+                c = n.comparators[0]
+                if isinstance(c, ast.Name) and c.id == params[2]:
+                    names["num_iter"] = n.left.id
+                if isinstance(c, ast.Attribute) and c.attr == "max_time" and n.left.id in aug:
+                    names["total_time"] = n.left.id
+        appended = {c.func.value.id for c in calls_attr(loop, "append") if isinstance(c.func.value, ast.Name)}
+        popped = {c.func.value.id for c in calls_attr(loop, "pop") if isinstance(c.func.value, ast.Name)}
+        both = sorted(appended & popped)
+        if both:
+            names["three_last_times"] = both[0]
+        for c in calls_attr(fn, "pop"):
+            if c.args and isinstance(c.args[0], ast.Name) and not isinstance(c.func.value, ast.Name):
+                names["number_of_pushes"] = c.args[0].id
+        need = ["num_iter", "solution", "total_time", "current_variable_value", "three_last_times"]
+        if not all(r in names for r in need):
+            return None
+        state = [names[r] for r in ROLES if r in names]
+        assigned = loopcut._assigned_names(loop.body)
+        temps = sorted(assigned - set(state))
+        key = f"processscheduler.solver.SchedulingSolver.{fn.name}#{k}"
+        return dict(method=fn.name, params=params, names=names, roles=[r for r in ROLES if r in names], key=key, spec=loopcut.LoopSpec(state=state, temps=temps))
+    return None
+
+
+_INFERRED = {}
+
+
+def inferred():
+    from psvc import loader
+
+    if loader.REPO not in _INFERRED:
+        _INFERRED[loader.REPO] = infer_loop()
+    return _INFERRED[loader.REPO]
+
+
+def run_incremental(solver, variable, kind, max_iter="default"):
+    """call the incremental optimiser of the real solver, whatever its private name and parameter names are"""
+    inf = inferred()
+    kw = {inf["params"][3]: kind}
+    if max_iter != "default":
+        kw[inf["params"][2]] = max_iter
+    return getattr(solver, inf["method"])(variable, **kw)
 
 
 def better(kind, a, b):
@@ -60,7 +146,8 @@ class IncrementalLoop:
     def enter(self, key, values, locs):
         names = self.names
         st = dict(zip(names, values))
-        slf, variable, kind = locs["self"], locs["variable"], locs["kind"]
+        prm = inferred()["params"]
+        slf, variable, kind = locs[prm[0]], locs[prm[1]], locs[prm[3]]
         G = slf._solver
         base = list(G.stack())
         info = dict(base=base, variable=variable, kind=kind, base_len=len(G.frames), case=None, F=None, prev=None, G=G, base_scopes=G.num_scopes())
@@ -131,24 +218,17 @@ class IncrementalLoop:
 class OptBase(Contract):
     props = ("C07", "C13", "C15", "C12")
     diff = "eval"
-    loop_spec = LOOP
-
     @property
     def loop_contracts(self):
-        return {KEY: self._spec()}
-
-    def _spec(self):
-        # the repaired function counts its pushes; the loop contract follows the source it finds
-        import ast, os
-        from psvc import loader
-
-        src = open(os.path.join(loader.REPO, "processscheduler", "solver.py")).read()
-        return LOOP_WITH_COUNTER if "number_of_pushes" in src else LOOP
+        inf = inferred()
+        if inf is None:
+            raise sym.Unsupported("the incremental optimiser's loop was not recognised (no method of SchedulingSolver with a `while` loop that pushes a scope, or its loop-carried locals do not have the expected uses)")
+        return {inf["key"]: inf["spec"]}
 
 
 @register
 class IncrementalOptimizer(OptBase):
-    target = "solver.SchedulingSolver._solve_optimize_incremental"
+    target = LABEL
     inlines = ("solver.SchedulingSolver.check_sat", "solver.SchedulingSolver.solve", "solver.SchedulingSolver.create_objective", "solver.SchedulingSolver.initialize", "util.calc_parabola_from_three_points")
     bounded = None
 
@@ -212,8 +292,8 @@ class IncrementalOptimizer(OptBase):
         h = None
         if P.symbolic:
             h = IncrementalLoop(self.props)
-            h.names = self._spec().state
-            loopcut.ACTIVE[KEY] = h
+            h.names = inferred()["roles"]  # the state by role, in the order of the loop contract's state tuple
+            loopcut.ACTIVE[inferred()["key"]] = h
         printed = []
         B = ps.__dict__.get("__builtins__")
         old_print = None
@@ -226,9 +306,9 @@ class IncrementalOptimizer(OptBase):
             base = list(asserted(solver))
             variable = solver._objective._target
             kind = "min" if solver._objective.kind == "minimize" else "max"
-            result = solver._solve_optimize_incremental(variable, max_iter=solver.max_iter, kind=kind)
+            result = run_incremental(solver, variable, kind, max_iter=solver.max_iter)
         finally:
-            loopcut.ACTIVE.pop(KEY, None)
+            loopcut.ACTIVE.pop(inferred()["key"], None)
             if old_print is not None:
                 B["print"] = old_print
         return dict(pb=pb, obj=obj, solver=solver, result=result, base=base, variable=variable, kind=kind, handler=h, printed=printed)
@@ -326,7 +406,7 @@ def _incremental_native_search(case, params, ob):
                         B = list(solver._solver.assertions())
                         variable = solver._objective._target
                         kind = "min" if solver._objective.kind == "minimize" else "max"
-                        res = solver._solve_optimize_incremental(variable, kind=kind)
+                        res = run_incremental(solver, variable, kind)
                     except Exception:  # noqa
                         continue
                 tried += 1
